@@ -112,6 +112,88 @@ def make_full_workspace(d, user_dict=True, second_prism=False):
     return d
 
 
+def make_table_workspace(d, user_dict=True):
+    """a second stock-like workspace: cangjie5's schema structure (table translator with the phrase encoder and the commit
+    history, express editor) over the tiny cangjie dictionary; phrases learnt from the commit history rank AFTER the table's
+    exact entries, so a learnt phrase can be the last candidate of a menu"""
+    shutil.rmtree(d, ignore_errors=True)
+    os.makedirs(d)
+    src = os.path.join(vlib.REPO, "data", "minimal")
+    default = open(os.path.join(src, "default.yaml"), encoding="utf-8").read()
+    default = re.sub(r"schema_list:\n(  - schema: \w+\n)+", "schema_list:\n  - schema: vs_cjfull\n  - schema: vs_script\n", default)
+    default = default.replace("switcher:\n", "switcher:\n  fix_schema_list_order: true\n", 1)
+    open(os.path.join(d, "default.yaml"), "w", encoding="utf-8").write(default)
+    shutil.copy(os.path.join(src, "symbols.yaml"), d)
+    s = open(os.path.join(src, "cangjie5.schema.yaml"), encoding="utf-8").read()
+    s = s.replace("schema_id: cangjie5", "schema_id: vs_cjfull").replace("dictionary: cangjie5", "dictionary: vs_cj") \
+         .replace("dictionary: luna_pinyin", "dictionary: vs_pin").replace("    - luna_pinyin\n", "")
+    s = s.replace("  dependencies:\n", "")
+    s += "\nmenu:\n  page_size: 4\n"
+    if not user_dict:
+        s = s.replace("translator:\n  dictionary: vs_cj", "translator:\n  dictionary: vs_cj\n  enable_user_dict: false")
+    assert "schema_id: vs_cjfull" in s and "dictionary: vs_cj" in s and "dictionary: vs_pin" in s
+    open(os.path.join(d, "vs_cjfull.schema.yaml"), "w", encoding="utf-8").write(s)
+    open(os.path.join(d, "vs_script.schema.yaml"), "w").write(sc.schema_yaml("vs_script", sc.SCHEMAS["vs_script"]))
+    with open(os.path.join(d, "vs_pin.dict.yaml"), "w", encoding="utf-8") as f:
+        f.write("---\nname: vs_pin\nversion: '1'\nsort: by_weight\n...\n\n" + "".join("%s\t%s\t%d\n" % r for r in PIN_ROWS))
+    with open(os.path.join(d, "vs_cj.dict.yaml"), "w", encoding="utf-8") as f:
+        f.write("---\nname: vs_cj\nversion: '1'\nsort: by_weight\ncolumns:\n  - text\n  - code\n  - weight\n"
+                "encoder:\n  rules:\n    - length_equal: 2\n      formula: \"AaBa\"\n    - length_in_range: [3, 5]\n      formula: \"AaBaCa\"\n...\n\n"
+                + "".join("%s\t%s\t%d\n" % r for r in CJ_ROWS))
+    open(os.path.join(d, ".fresh_userdb"), "w").close()      # session_common.run_impl empties the user dictionary before every run
+    return d
+
+
+def gen_table_history(rng, n):
+    """keys and calls for the table-translator workspace: codes over a-e, confirmations (the encoder learns phrases from
+    consecutive commits), paging / highlight moves, deletion of the highlighted or of an indexed candidate, editing keys"""
+    XK = sc.XK
+    codes = ["a", "b", "ab", "c", "d", "dd", "ddd", "e", "ba", "abc", "de", "aa"]
+    ops = []
+    while len(ops) < n:
+        r = rng.random()
+        if r < 0.34:
+            for ch in rng.choice(codes):
+                ops.append("key %d 0" % ord(ch))
+            if rng.random() < 0.6:
+                ops.append("key %d 0" % XK["space"])
+        elif r < 0.50:
+            ops.append("key %d 0" % rng.choice([XK["Down"], XK["Down"], XK["Up"], XK["Next"], XK["Prior"], XK["End"], XK["Home"]]))
+        elif r < 0.62:
+            ops.append(rng.choice(["key %d 4" % XK["Delete"], "key %d 4" % XK["Delete"], "delete %d" % rng.randrange(4),
+                                   "delete_page %d" % rng.randrange(4)]))
+        elif r < 0.72:
+            ops.append("key %d 0" % rng.choice([XK["space"], XK["Return"], XK["BackSpace"], XK["Escape"], XK["Left"], XK["Right"]]))
+        elif r < 0.80:
+            ops.append("key %d 0" % ord(rng.choice("12345")))
+        elif r < 0.88:
+            ops.append(rng.choice(["select %d" % rng.randrange(4), "highlight %d" % rng.randrange(5), "highlight_page %d" % rng.randrange(4),
+                                   "page +", "page -"]))
+        elif r < 0.93:
+            ops.append(rng.choice(["commit", "clear", "caret %d" % rng.randrange(4)]))
+        elif r < 0.97:
+            ops.append("key %d 0" % ord(rng.choice(",.;/")))
+        else:
+            ops.append("read_commit")
+    return ops
+
+
+def table_directed_histories():
+    """a phrase learnt from two commits in a row, found again under the joint code, walked to and deleted — by the hotkey and
+    through the API, as the last candidate and not; then the menu is read again"""
+    XK = sc.XK
+    sp, dn, cdel = "key %d 0" % XK["space"], "key %d 0" % XK["Down"], "key %d 4" % XK["Delete"]
+    k = lambda w: ["key %d 0" % ord(ch) for ch in w]
+    hs = []
+    for first, second in (("a", "b"), ("d", "d"), ("c", "e"), ("dd", "d")):
+        learn = k(first) + [sp] + k(second) + [sp, "read_commit"]
+        for walk in ([], [dn], [dn, dn], [dn, dn, dn]):
+            for kill in ([cdel], ["delete 0"], ["delete 1"], ["delete 2"], ["delete_page 1"]):
+                hs.append(learn + k(first + second) + walk + kill + [dn, "key %d 0" % XK["Up"], sp, "read_commit"] +
+                          k(first + second) + [sp, "read_commit"])
+    return hs
+
+
 MUT_KINDS = ["null", "scalar:x", "scalar:-1", "scalar:99999999999", "scalar:", "emptylist", "emptymap", "list1", "map1", "listmap"]
 SHORT_HISTORY = ["new", "schema {sid}", "context", "key 110 0", "key 105 0", "context", "key 104 0", "key 97 0", "key 111 0", "context",
                  "list 0 20", "page +", "context", "page -", "highlight 1", "select_page 1", "context", "key 32 0", "read_commit",
